@@ -38,11 +38,12 @@ structure Threaded.Inv (env : Env) (t : Threaded) : Prop where
   mapStr : ∀ ref k, (ref, k) ∈ t.map → (k, ref) ∈ t.strs
   strMap : ∀ k ref, (k, ref) ∈ t.strs → (ref, k) ∈ t.map
   strNd : (t.strs.map (·.1)).Nodup
+  mapNd : (t.map.map (·.2)).Nodup
   dense : ∀ k, k < t.strs.length ↔ ∃ ref, (k, ref) ∈ t.strs
   ctr : t.ctr = t.strs.length ∨ (t.N ≤ t.ctr ∧ t.strs.length = t.N)
   valid : ∀ k loc, (k, StrRef.arena loc) ∈ t.strs → t.arena.valid loc ∧ loc.len ≠ 0
   statics : ∀ k i, (k, StrRef.static i) ∈ t.strs → i < env.pool.length
-  disjoint : t.strs.Pairwise (fun a b => ∀ l m, a.2 = .arena l → b.2 = .arena m → l.disjoint m)
+  disjoint : ∀ k1 l1 k2 l2, (k1, StrRef.arena l1) ∈ t.strs → (k2, StrRef.arena l2) ∈ t.strs → k1 ≠ k2 → l1.disjoint l2
   distinct : ∀ i j y, t.str env i = some y → t.str env j = some y → i = j
   lenLe : t.strs.length ≤ t.N
 
@@ -174,6 +175,18 @@ theorem Threaded.push_inv {env : Env} {t : Threaded} (h : t.Inv env) {a' : LAren
     rintro ⟨e, he, hk⟩
     cases e with
     | mk k r => simp at hk; subst hk; exact hfresh r he
+  · simp only [List.map_append, List.map_cons, List.map_nil]
+    rw [List.nodup_append]
+    refine ⟨h.mapNd, by simp, ?_⟩
+    intro a ha b hb
+    simp only [List.mem_singleton] at hb
+    subst hb
+    simp only [List.mem_map] at ha
+    obtain ⟨e, he, rfl⟩ := ha
+    intro heq
+    have := h.mapStr e.1 e.2 he
+    rw [heq] at this
+    exact hfresh e.1 this
   · intro k
     simp only [List.length_cons, List.mem_cons, Prod.mk.injEq]
     constructor
@@ -200,17 +213,17 @@ theorem Threaded.push_inv {env : Env} {t : Threaded} (h : t.Inv env) {a' : LAren
     rcases hm with ⟨rfl, hr⟩ | hm
     · exact hstat i hr.symm
     · exact h.statics k i hm
-  · simp only [List.pairwise_cons]
-    refine ⟨?_, h.disjoint⟩
-    intro e he l m hl hm
-    obtain ⟨_, _, hd⟩ := hvalid l hl
-    cases e with
-    | mk k r =>
-      simp only at hm; subst hm
-      -- the new region is disjoint from every old one
-      have := hd m (h.valid k m he).1
+  · intro k1 l1 k2 l2 h1 h2 hne
+    simp only [List.mem_cons, Prod.mk.injEq] at h1 h2
+    rcases h1 with ⟨rfl, hr1⟩ | h1 <;> rcases h2 with ⟨rfl, hr2⟩ | h2
+    · exact absurd rfl hne
+    · obtain ⟨_, _, hd⟩ := hvalid l1 hr1.symm
+      have := hd l2 (h.valid k2 l2 h2).1
       unfold Loc.disjoint at *
       omega
+    · obtain ⟨_, _, hd⟩ := hvalid l2 hr2.symm
+      exact hd l1 (h.valid k1 l1 h1).1
+    · exact h.disjoint k1 l1 k2 l2 h1 h2 hne
   · intro i j y hi hj
     have hinv : ∀ k y, ({ t with arena := a', ctr := t.ctr + 1, strs := (t.strs.length, ref) :: t.strs, map := t.map ++ [(ref, t.strs.length)] } : Threaded).str env k = some y →
         (k = t.strs.length ∧ y = x) ∨ (k ≠ t.strs.length ∧ t.str env k = some y) := by
@@ -274,8 +287,8 @@ theorem Threaded.burn_inv {env : Env} {t : Threaded} (h : t.Inv env) {a' : LAren
       rw [this] at hk; injection hk with hk; subst hk
       exact (Threaded.str_iff h k _).mpr ⟨r, hm, hy'⟩
   refine ⟨?_, hfwd, hbwd⟩
-  obtain ⟨h1, h2, h3, h4, h5, h6, h7, h8, h9, h10, h11⟩ := h
-  refine ⟨hwf, h2, h3, h4, h5, ?_, ?_, h8, h9, ?_, h11⟩
+  obtain ⟨h1, h2, h3, h4, h4b, h5, h6, h7, h8, h9, h10, h11⟩ := h
+  refine ⟨hwf, h2, h3, h4, h4b, h5, ?_, ?_, h8, h9, ?_, h11⟩
   · right
     simp only
     rcases h6 with h6 | h6 <;> omega
@@ -422,10 +435,10 @@ theorem Threaded.tryInternStatic_spec {env : Env} {t : Threaded} (h : t.Inv env)
       simp [hlt]
 
 theorem Threaded.setLimit_inv {env : Env} {t : Threaded} (h : t.Inv env) (m : Nat) : (t.setLimit m).Inv env := by
-  obtain ⟨h1, h2, h3, h4, h5, h6, h7, h8, h9, h10, h11⟩ := h
+  obtain ⟨h1, h2, h3, h4, h4b, h5, h6, h7, h8, h9, h10, h11⟩ := h
   have hwf : ({ t.arena with max := m } : LArena).WF := by
     obtain ⟨a1, a2, a3, a4, a5⟩ := h1
     exact ⟨a1, a2, a3, a4, a5⟩
-  exact ⟨hwf, h2, h3, h4, h5, h6, h7, h8, h9, h10, h11⟩
+  exact ⟨hwf, h2, h3, h4, h4b, h5, h6, h7, h8, h9, h10, h11⟩
 
 end Lasso
